@@ -23,7 +23,7 @@ Definition funOK (p : nat) (ps : list param) (body : query) (cel : list (BinNums
     (forall G, comp body {| ce_env := param_env idf ps ++ cel; ce_lbls := []; ce_ghost := G |} idf
                  (p + 1 + length (prelude idf ps)) (param_slots ps) s0 = Some (cb, nvb, s1)) /\
     (forall i x, nth_error (prelude idf ps ++ cb ++ [Iret]) i = Some x -> nth_error code (p + 1 + i) = Some x) /\
-    ce_lt {| ce_env := cel; ce_lbls := []; ce_ghost := fun _ => False |} idf = true.
+    ce_lt {| ce_env := cel; ce_lbls := []; ce_ghost := fun _ => False |} idf = true /\ no_pv ps = true.
 
 (* the compile-time environment and the semantic environment are parallel lists; G: the addresses the
    environments of the closures bound here depend on *)
@@ -554,7 +554,7 @@ Proof.
     match type of Hc with context [comp a ce ?c ?p ?n ?s] =>
       destruct (comp a ce c p n s) as [[[ca na] s2]|] eqn:Ea; [|discriminate] end. cbv iota beta in Hc.
     inversion Hc; subst. apply IHb in Eb. apply IHa in Ea. lia.
-  - (* def *) destruct (Nat.ltb cur sn && ce_lt ce sn); [|discriminate].
+  - (* def *) destruct (Nat.ltb cur sn && ce_lt ce sn); [|discriminate]. destruct (no_pv ps); [|discriminate].
     dcomp. inversion Hc; subst. apply IHbody in Ec. apply IHrest in Ec0. lia.
   - (* callf *) destruct (lookup_cf f (length args) (ce_env ce)) as [[y|p n|y]|]; try discriminate.
     + destruct args as [|a0 args']; [inversion Hc; subst; lia|].
@@ -564,6 +564,60 @@ Proof.
       eapply (comp_args_mono _ _ _ _ _ _ _ Ea).
       eapply Forall_impl; [|exact IHargs]. simpl. intros a Ha s p0 cb nvc s1 Hca. apply Ha in Hca. lia.
     + inversion Hc; subst; lia.
+Qed.
+
+(* the compiler does not look at the ghost field of the environment *)
+Lemma comp_args_ext : forall (C C' : query -> nat -> nat -> res) l,
+  Forall (fun a => forall s p, C a s p = C' a s p) l -> forall p sn, comp_args C l p sn = comp_args C' l p sn.
+Proof.
+  induction l as [|a r IH]; intros HF p sn; simpl; [reflexivity|]. inversion HF; subst.
+  rewrite (IH H2). destruct (comp_args C' r p sn) as [[[cr p1] s1]|]; [|reflexivity]. rewrite H1. reflexivity.
+Qed.
+
+Ltac cg1 ce ce' :=
+  match goal with
+  | IH : (forall c1 c2 : cenv, ce_env c1 = ce_env c2 -> ce_lbls c1 = ce_lbls c2 -> forall cur pc nv sn, comp ?s c1 cur pc nv sn = comp ?s c2 cur pc nv sn)
+    |- context [comp ?s ?c ?a1 ?a2 ?a3 ?a4] =>
+      lazymatch c with context [ce'] => fail | context [ce] => idtac end;
+      let f := (eval pattern ce in c) in
+      match f with ?F _ => let c' := (eval cbv beta in (F ce')) in
+         rewrite (IH c c' ltac:(simpl; congruence) ltac:(simpl; congruence) a1 a2 a3 a4) end
+  end.
+
+Ltac cg ce ce' :=
+  repeat first
+    [ reflexivity
+    | cg1 ce ce'
+    | match goal with
+      | |- (if ?g then _ else _) = (if ?g then _ else _) => destruct g; [|reflexivity]
+      | |- context [comp ?s ?c ?a1 ?a2 ?a3 ?a4] => destruct (comp s c a1 a2 a3 a4) as [[[? ?] ?]|]; cbv iota beta
+      end ].
+
+Lemma comp_ghost : forall q ce ce', ce_env ce = ce_env ce' -> ce_lbls ce = ce_lbls ce' ->
+  forall cur pc nv sn, comp q ce cur pc nv sn = comp q ce' cur pc nv sn.
+Proof.
+  qind q; intros ce ce' He Hl cur pc nv sn; cbn -[Nat.add Nat.ltb Nat.eqb ce_lt prelude param_env param_slots comp_args no_pv];
+    try reflexivity; unfold ce_lt; rewrite ?He, ?Hl.
+  - cg ce ce'.
+  - cg ce ce'.
+  - cg ce ce'.
+  - cg ce ce'.
+  - cg ce ce'.
+  - cg ce ce'.
+  - destruct h as [h|]; simpl in IHh; cg ce ce'.
+  - cg ce ce'.
+  - cg ce ce'.
+  - destruct e as [e|]; simpl in IHe; cg ce ce'.
+  - cg ce ce'.
+  - reflexivity.
+  - cg ce ce'.
+  - reflexivity.
+  - cg ce ce'.
+  - cg ce ce'.
+  - destruct (lookup_cf f (length args) (ce_env ce')) as [[y|p n|y]|]; try reflexivity.
+    destruct args as [|a0 args']; [reflexivity|].
+    rewrite (comp_args_ext (fun a s' p' => comp a (fun_env ce) s' (p' + 2) 0 (S s')) (fun a s' p' => comp a (fun_env ce') s' (p' + 2) 0 (S s'))); [reflexivity|].
+    eapply Forall_impl; [|exact IHargs]. simpl. intros a Ha s p0. apply Ha; simpl; congruence.
 Qed.
 
 (* ---- den-level facts ---- *)
